@@ -237,6 +237,11 @@ class InputScope(PSBTScope):
                 else self.non_witness_utxo.txid()
             )
             if self.txid == txid:
+                # witness utxo must not contradict the verified previous output
+                if self.witness_utxo is not None:
+                    prev = self._utxo or self.non_witness_utxo.vout[self.vout]
+                    if self.witness_utxo != prev:
+                        raise PSBTError("witness_utxo doesn't match non_witness_utxo")
                 self._verified = True
                 return True
             else:
